@@ -1,2 +1,124 @@
-(* Property C08 (stub while the proofs are being written) *)
-From V Require Import C08.Model.
+(* Property C08 — the scheduler cache converges to the cluster state and
+   snapshots are isolated.  Property theorems only; each is closed by [exact]
+   of a lemma proved in C08/Lemmas.v or C08/Refuted.v and followed by its
+   assumptions.
+
+   [Rep c] is CacheInv: every job entry is the ledger (membership, TotalRequest,
+   Allocated) of exactly the held tasks that name it, every node entry /
+   placeholder holds exactly the non-terminated tasks that name it and, when it
+   has a Node object, Used / Releasing / Pipelined are the sums of their requests
+   and Idle = Allocatable - Used; an entry exists for every task that names a
+   job or sits on a node.  [Synced] says the held tasks are exactly
+   NewTaskInfo(last delivered pod version). *)
+From stdpp Require Import gmap.
+From Coq Require Import ZArith.
+From V Require Import Base.Res Sched.LedgerModel Sched.LedgerInv C08.Model C08.Laws C08.Lemmas C08.Refuted.
+Open Scope Z_scope.
+
+(* --- the two task-level operations every pod handler is made of --- *)
+Theorem C08_add_task_keeps_inv : forall eps c jo t,
+  Rep c -> c_heap c !! t_id t = None -> task_wf t -> t_status t <> Binding -> job_arg jo t ->
+  let c' := fst (add_task eps c jo t) in
+  Rep c' /\ snd (add_task eps c jo t) = true /\
+  c_heap c' = <[t_id t := t]> (c_heap c) /\
+  jobs_ext (c_jobs c) (c_jobs c') /\ nodes_ext (c_nodes c) (c_nodes c') /\
+  c' = with_hjn c (c_heap c') (c_jobs c') (c_nodes c').
+Proof. exact add_task_rep. Qed.
+Print Assumptions C08_add_task_keeps_inv.
+
+Theorem C08_delete_task_keeps_inv : forall c jo t,
+  Rep c -> c_heap c !! t_id t = Some t -> job_arg jo t ->
+  let c' := delete_task c jo t in
+  Rep c' /\ c_heap c' = delete (t_id t) (c_heap c) /\
+  jobs_ext (c_jobs c) (c_jobs c') /\ nodes_ext (c_nodes c) (c_nodes c') /\
+  c' = with_hjn c (c_heap c') (c_jobs c') (c_nodes c').
+Proof. exact delete_task_rep. Qed.
+Print Assumptions C08_delete_task_keeps_inv.
+
+(* --- single_event_refines: each handler keeps CacheInv --- *)
+Theorem C08_pod_event_keeps_inv : forall eps c p,
+  Rep c -> Synced eps c -> store_ok c -> pod_ok p ->
+  (forall old, c_store c !! p_id p = Some old -> upd_ok old p) ->
+  let c' := handle eps c (EPod p) in
+  Rep c' /\ Synced eps c' /\ store_ok c' /\ c_store c' = <[p_id p := p]> (c_store c) /\
+  jobs_ext (c_jobs c) (c_jobs c') /\ nodes_ext (c_nodes c) (c_nodes c').
+Proof. exact handle_pod_inv. Qed.
+Print Assumptions C08_pod_event_keeps_inv.
+
+Theorem C08_pod_delete_keeps_inv : forall eps c i,
+  Rep c -> Synced eps c -> store_ok c ->
+  let c' := handle eps c (EPodDel i) in
+  Rep c' /\ Synced eps c' /\ store_ok c' /\ c_store c' = delete i (c_store c) /\
+  jobs_ext (c_jobs c) (c_jobs c') /\ nodes_ext (c_nodes c) (c_nodes c').
+Proof. exact handle_pod_del_inv. Qed.
+Print Assumptions C08_pod_delete_keeps_inv.
+
+Theorem C08_remove_node_keeps_inv : forall c nid, Rep c -> Rep (remove_node c nid).
+Proof. exact remove_node_inv. Qed.
+Print Assumptions C08_remove_node_keeps_inv.
+
+Theorem C08_remove_node_keeps_tasks : forall c nid ni,
+  c_nodes c !! nid = Some ni -> n_tasks ni <> ∅ ->
+  exists ph, c_nodes (remove_node c nid) !! nid = Some ph /\ n_tasks ph = n_tasks ni /\ n_has_node ph = false.
+Proof. exact remove_node_keeps_tasks. Qed.
+Print Assumptions C08_remove_node_keeps_tasks.
+
+Theorem C08_set_pod_group_keeps_inv : forall c g, Rep c -> g_id g <> no_job -> Rep (set_pod_group c g).
+Proof. exact set_pod_group_inv. Qed.
+Print Assumptions C08_set_pod_group_keeps_inv.
+
+Theorem C08_delete_pod_group_keeps_inv : forall c j, Rep c -> Rep (delete_pod_group c j).
+Proof. exact delete_pod_group_inv. Qed.
+Print Assumptions C08_delete_pod_group_keeps_inv.
+
+(* --- histories: any order across objects, pods before their node or PodGroup,
+       nodes removed under running pods --- *)
+Theorem C08_history_keeps_inv : forall eps h c, Inv eps c -> hist_ok eps c h -> Inv eps (run eps c h).
+Proof. exact history_inv. Qed.
+Print Assumptions C08_history_keeps_inv.
+
+Theorem C08_histories_agree : forall eps h h',
+  hist_ok eps empty_cache h -> hist_ok eps empty_cache h' ->
+  c_store (run eps empty_cache h) = c_store (run eps empty_cache h') ->
+  c_heap (run eps empty_cache h) = c_heap (run eps empty_cache h').
+Proof. exact histories_agree. Qed.
+Print Assumptions C08_histories_agree.
+
+(* --- the view is a function of the held tasks and the node objects --- *)
+Theorem C08_view_determined : forall c c',
+  Rep c -> Rep c' -> c_heap c = c_heap c' ->
+  (forall j cj, c_jobs c !! j = Some cj ->
+     (j_tasks (cj_job cj) <> ∅ -> is_Some (c_jobs c' !! j)) /\
+     (forall cj', c_jobs c' !! j = Some cj' -> job_equiv cj cj')) /\
+  (forall n N, c_nodes c !! n = Some N ->
+     (n_tasks N <> ∅ -> is_Some (c_nodes c' !! n)) /\
+     (forall N', c_nodes c' !! n = Some N' -> node_equiv N N')).
+Proof. exact view_determined. Qed.
+Print Assumptions C08_view_determined.
+
+(* --- finding F4: RemoveNode as it was before fix e29cb66 --- *)
+Theorem C08_converges_prefix_refuted :
+  exists h, view_eqb (run_prefix eps0 empty_cache h) (build eps0 (final_objects h)) = false /\
+            cache_invb (run_prefix eps0 empty_cache h) = false.
+Proof. exact converges_prefix_refuted. Qed.
+Print Assumptions C08_converges_prefix_refuted.
+
+Theorem C08_remove_node_prefix_breaks_inv :
+  exists c n, cache_invb c = true /\ cache_invb (remove_node_prefix c n) = false.
+Proof. exact remove_node_prefix_breaks_inv. Qed.
+Print Assumptions C08_remove_node_prefix_breaks_inv.
+
+(* --- non-vacuity --- *)
+Example C08_f4_history_fixed :
+  view_eqb (run eps0 empty_cache f4_history) (build eps0 (final_objects f4_history)) = true /\
+  cache_invb (run eps0 empty_cache f4_history) = true.
+Proof. exact f4_history_fixed. Qed.
+Print Assumptions C08_f4_history_fixed.
+
+Example C08_inv_empty : forall eps, Inv eps empty_cache.
+Proof. exact inv_empty. Qed.
+Print Assumptions C08_inv_empty.
+
+Example C08_pod1_ok : pod_ok pod1.
+Proof. exact pod1_ok. Qed.
+Print Assumptions C08_pod1_ok.
